@@ -63,6 +63,18 @@ def Operand.spaceOK (A : MA α) : Operand α → Bool
   | .ma B => _root_.spaceOK A.space B.space
   | _ => true
 
+/-- number of grid points an operand spans (1 for scalars, per-matrix and per-column arrays) -/
+def Operand.len (o : Operand α) (rank : Nat) : Nat :=
+  match o with
+  | .ma B => B.length
+  | .perPoint v => v.size
+  | .full d => d.size / (rank * rank)
+  | _ => 1
+
+/-- numpy broadcasting of a length-1 left operand (e.g. `density.pair`) against a longer right operand -/
+def MA.stretch (A : MA α) (n : Nat) : MA α :=
+  if A.length = 1 ∧ 1 < n then MA.build n A.rank A.space fun _ i j => A.at 0 i j else A
+
 /-- `A ∘ other` for `∘ ∈ {+,-,*,/}`; refused iff `other` is a MatrixArray in the other space -/
 def MA.binop (f : α → α → α) (A : MA α) (o : Operand α) : Except Err (MA α) :=
   if o.spaceOK A then
